@@ -209,11 +209,12 @@ def norm_self(t):
 
 # ============================================================================ frames
 class Frame:
-    __slots__ = ('func', 'locals', 'env', 'ltypes')
-    def __init__(self, func, env):
+    __slots__ = ('func', 'locals', 'env', 'ltypes', 'crate')
+    def __init__(self, func, env, crate=None):
         self.func = func
         self.locals = {}
         self.env = env
+        self.crate = crate if crate is not None else (getattr(func, 'crate', None) if func is not None else None)
 
 class LocalLoc(Loc):
     __slots__ = ('fr', 'k')
@@ -366,8 +367,43 @@ class Interp:
         if ty.startswith('fn(') or ty.startswith('for<') or ty.startswith('unsafe fn('):
             # fn item type:  fn(A) -> B {path}
             k = ty.rindex('{')
-            return FnItem(ty[k+1:-1], dict(fr.env) if fr is not None else {})
+            return FnItem(ty[k+1:-1], dict(fr.env) if fr is not None else {}, getattr(fr, 'crate', None) if fr is not None else None)
         return Zst(ty)
+
+    def variant_const(self, c, fr):
+        """constant enum values printed as expressions: `Result::<Infallible, ()>::Err(())`, `Option::<u8>::None`, `E::V(const 1_u8)`"""
+        txt = strip_lifetimes(c.strip())
+        # split off a trailing argument list `( ... )` that is not part of the generic arguments
+        head, args = txt, None
+        if txt.endswith(')'):
+            depth = 0
+            for i in range(len(txt) - 1, -1, -1):
+                ch = txt[i]
+                if ch == ')': depth += 1
+                elif ch == '(':
+                    depth -= 1
+                    if depth == 0:
+                        if i > 0 and (txt[i - 1].isalnum() or txt[i - 1] == '_'):
+                            head, args = txt[:i], txt[i + 1:-1]
+                        break
+        head = strip_generics_text(head)
+        segs = head.split('::')
+        if len(segs) < 2:
+            return None
+        ty, var = segs[-2], segs[-1]
+        std = {('Result', 'Ok'): 0, ('Result', 'Err'): 1, ('Option', 'None'): 0, ('Option', 'Some'): 1}
+        vi = std.get((ty, var))
+        if vi is None:
+            vi = self.prog.variant_index(ty, var)
+        if vi is None:
+            return None
+        vals = []
+        if args is not None and args.strip() != '':
+            from mirparse import split_top as _st
+            for a in _st(args):
+                a = a.strip()
+                vals.append(UNIT if a == '()' else self.const(a[6:] if a.startswith('const ') else a, fr))
+        return Adt(ty, var, vi, vals)
 
     def named_const(self, c, fr):
         # casts such as `const str (Transmute)` never reach here (rvalue handles them)
@@ -428,6 +464,8 @@ class Interp:
             if v is None:
                 # unit-like struct / enum variant used as a constant
                 v = self.unit_adt(name)
+            if v is None:
+                v = self.variant_const(c, fr)
             if v is None:
                 raise Unsupported('constant %s in %s env %s' % (c, fr.func.name if fr is not None and fr.func else None, fr.env if fr is not None else None))
             return v
@@ -552,7 +590,7 @@ class Interp:
         if k == 'const':
             return self.const(op[1], fr)
         if k == 'fnitem':
-            return FnItem(op[1], dict(fr.env))
+            return FnItem(op[1], dict(fr.env), getattr(fr, 'crate', None))
         raise InternalError('operand ' + repr(op))
 
     # ------------------------------------------------------------------ types of operands
@@ -1280,6 +1318,7 @@ class Interp:
             return h(self, args)
         c = parse_callee(callee_text)
         env = fr.env if fr is not None else {}
+        self._caller_crate = getattr(fr, 'crate', None) if fr is not None else None
         r = self.resolve_repo(c, env, args)
         if r is not None:
             func, cenv = r
@@ -1362,7 +1401,7 @@ class Interp:
                     return e.func, cenv
         if is_foreign_path(segs):
             return None
-        f = P.find_free(tuple(segs))
+        f = P.find_free(tuple(segs), getattr(self, '_caller_crate', None))
         if f is not None:
             # a free fn match must not shadow a library path such as `Option::map`: require that the
             # path has no capitalised type segment unless it is a tuple-struct constructor
@@ -1392,7 +1431,7 @@ class Interp:
             selfarg = f if not first.lstrip().startswith('&') else ref_to(f)
             return self.run(fn, [selfarg] + list(args), env)
         if isinstance(f, FnItem):
-            ffr = Frame(None, f.env)
+            ffr = Frame(None, f.env, f.crate)
             return self.call(f.text, list(args), ffr)
         if isinstance(f, PyFn):
             return f.f(self, *args)
